@@ -6,6 +6,13 @@
 (* A program is a tuple of task scripts, task 1 = the main process.  An op is    *)
 (*   [k |-> kind, a |-> name, n |-> number]                                      *)
 (*   T  traced marker call  mkdirat(a)           U  untraced call mkdir(a)       *)
+(*      (kind "R" = T on the shared name "mr": the same path trapped repeatedly,  *)
+(*       possibly from different tasks; a repeated mkdirat really returns EEXIST) *)
+(*   N  traced call decided by its NAME only: symlink("x", a); the handler sees   *)
+(*      "symlink" every time (CheckSyscall), the effect name a is unique          *)
+(* A decision function is indexed by OCCURRENCE: dec[key] is the sequence of      *)
+(* answers the handler gives to the 1st, 2nd, ... consultation about that key     *)
+(* (key = path name for T, syscall name for N), the last answer persisting.       *)
 (*   F/V/C  fork / vfork / thread running task n                                 *)
 (*   W  wait for every task created so far       S  queue SIGUSR1 to itself      *)
 (*   K  a call the filter itself kills            X  exit_group(n)               *)
@@ -38,6 +45,8 @@ WF(q) == /\ \A i \in DOMAIN q : q[i] \in Terminal => i = Len(q)
 \* concrete ops: task t, spawn targets are base+1, base+2, ...
 Mk(x, t, i, j) ==
   CASE x = "T" -> Op("T", Name("m", t, i), 0)
+    [] x = "R" -> Op("T", "mr", 0)
+    [] x = "N" -> Op("N", Name("n", t, i), 0)
     [] x = "U" -> Op("U", Name("u", t, i), 0)
     [] x \in Spawns -> Op(x, "", j)
     [] x = "J" -> Op("J", "", j)
@@ -49,8 +58,9 @@ Conc(t, q, base) == [i \in DOMAIN q |-> Mk(q[i], t, i, base + Rank(q, i))]
 M1(ns) == { q \in KindSeqs(MainAlpha, MaxMain) : WF(q) /\ Cnt(q, Spawns) = ns }
 C1(ns) == { q \in KindSeqs(ChildAlpha, MaxChild) : WF(q) /\ Cnt(q, Spawns) = ns }
 
-Fits(qs) == /\ Cnt(qs[1], {"T"}) + (IF Len(qs) > 1 THEN Cnt(qs[2], {"T"}) ELSE 0)
-                 + (IF Len(qs) > 2 THEN Cnt(qs[3], {"T"}) ELSE 0) <= MaxT
+TracedKinds == {"T", "R", "N"}
+Fits(qs) == /\ Cnt(qs[1], TracedKinds) + (IF Len(qs) > 1 THEN Cnt(qs[2], TracedKinds) ELSE 0)
+                 + (IF Len(qs) > 2 THEN Cnt(qs[3], TracedKinds) ELSE 0) <= MaxT
             /\ Len(qs[1]) + (IF Len(qs) > 1 THEN Len(qs[2]) ELSE 0)
                  + (IF Len(qs) > 2 THEN Len(qs[3]) ELSE 0) <= MaxTotal
 
@@ -65,10 +75,18 @@ Scripts ==
        { <<Conc(1, p[1], 1), Conc(2, p[2], 2), Conc(3, p[3], 3)>> :
            p \in { p \in M1(1) \X C1(1) \X C1(0) : Fits(p) } })
 
-Markers(s) == { s[t][i].a : <<t, i>> \in { ti \in (DOMAIN s) \X (1..(MaxMain + MaxChild)) :
-                                           ti[2] \in DOMAIN s[ti[1]] /\ s[ti[1]][ti[2]].k = "T" } }
+\* what the handler can tell apart: the path of a marker call, the name of a name-decided call
+KeyOf(o) == IF o.k = "N" THEN "symlink" ELSE o.a
+TracedIdx(s) == { ti \in (DOMAIN s) \X (1..(MaxMain + MaxChild)) :
+                    ti[2] \in DOMAIN s[ti[1]] /\ s[ti[1]][ti[2]].k \in {"T", "N"} }
+Keys(s) == { KeyOf(s[ti[1]][ti[2]]) : ti \in TracedIdx(s) }
+Occ(s, key) == Cardinality({ ti \in TracedIdx(s) : KeyOf(s[ti[1]][ti[2]]) = key })
+Slots(s) == { kj \in Keys(s) \X (1..(MaxMain + 2 * MaxChild)) : kj[2] <= Occ(s, kj[1]) }
+\* every assignment of an answer to every (key, occurrence)
+DecFuns(s) == { [key \in Keys(s) |-> [j \in 1..Occ(s, key) |-> D[<<key, j>>]]] : D \in [Slots(s) -> Decisions] }
+PolicyAt(p, i) == p[IF i > Len(p) THEN Len(p) ELSE i]
 
-Cases == UNION { { [script |-> s, dec |-> d] : d \in [Markers(s) -> Decisions] } : s \in Scripts }
+Cases == UNION { { [script |-> s, dec |-> d] : d \in DecFuns(s) } : s \in Scripts }
 
 (* -------- structure of a script -------- *)
 NTasks(s) == Len(s)
